@@ -296,6 +296,21 @@ func runC19(t *testing.T, p *core.Plan) *core.Result {
 		for steps = 0; steps < 4000; steps++ {
 			syncWait()
 			if closeAt >= 0 && steps >= closeAt && !closed {
+				// Close comes from a third goroutine at an arbitrary moment: in half
+				// of the cases some senders are released in the same step, before
+				// the closer is started, so that Close can meet a Send in progress
+				// (lock-level yields decide how far the sender has got)
+				if sched.Chance(1, 2) {
+					for i, k := 0, 1+sched.Intn(3); i < k; i++ {
+						s := 1 + sched.Intn(nS)
+						if left[s] > 0 {
+							left[s]--
+							gates[s] <- struct{}{}
+							log.Ev("release %d", s)
+							res.Count("close_meets_released_sender", 1)
+						}
+					}
+				}
 				doClose()
 				log.Ev("close")
 				continue
